@@ -137,7 +137,7 @@ Init == /\ \E s \in InitStates : g = s.g /\ ls = s.ls
         /\ nops = 0
 
 Idx == 1..(MaxLocals + 1)       \* MaxLocals + 1 is always out of range
-Next == /\ nops < MaxOps
+Calls == /\ nops < MaxOps
         /\ \/ \E k \in Keys, v \in Stored : SetValue(k, v)
            \/ \E k \in Keys : GetValueOp(k) \/ DeleteValue(k)
            \/ \E i \in Idx, k \in Keys, v \in Stored : SetItemValue(i, k, v) \/ SliceWrite(i, k, v)
@@ -145,6 +145,8 @@ Next == /\ nops < MaxOps
            \/ \E i \in Idx : GetItem(i) \/ GetSlice(i)
            \/ KeysOp \/ ItemsOp \/ Clear \/ AppendBad
            \/ \E d \in AppendDicts : AppendCtx(d)
+\* a finished walk stutters (no deadlock at the end of a simulated behaviour)
+Next == Calls \/ (nops = MaxOps /\ UNCHANGED vars)
 Spec == Init /\ [][Next]_vars
 
 \* ---- what the design promises (checked by TLC on every reachable transition) --------------------
